@@ -1055,6 +1055,56 @@ struct vl
       if constexpr (N >= 3)
         want_s(c, "dim::object::d", u.d(), pu[2]);
     }
+    // the NON-CONST overloads of the same accessors (reads through a mutable reference change nothing), and writes
+    // through them on a static copy: each named accessor reaches its own component
+    {
+      U &mu = const_cast<U &>(u);
+      static_for<N>([&](auto i) {
+        constexpr size_type I = decltype(i)::value;
+        want_s(c, opn("at(non-const)").c_str(), K::template at<I>(mu), pu[I]);
+        want_s(c, opn("object::get_unsafe(non-const)").c_str(), mu.get_unsafe(I), pu[I]);
+      });
+      if constexpr (K::is_vector)
+      {
+        want_s(c, "vector::object::x(non-const)", mu.x(), pu[0]);
+        if constexpr (N >= 2)
+          want_s(c, "vector::object::y(non-const)", mu.y(), pu[1]);
+        if constexpr (N >= 3)
+          want_s(c, "vector::object::z(non-const)", mu.z(), pu[2]);
+        if constexpr (N >= 4)
+          want_s(c, "vector::object::w(non-const)", mu.w(), pu[3]);
+        fm::vector::static_<T, N> w{fcppt::no_init{}};
+        for (size_type j = 0; j < N; ++j)
+          w.get_unsafe(j) = static_cast<T>(0);
+        w.x() = static_cast<T>(11);
+        if constexpr (N >= 2)
+          w.y() = static_cast<T>(22);
+        if constexpr (N >= 3)
+          w.z() = static_cast<T>(33);
+        if constexpr (N >= 4)
+          w.w() = static_cast<T>(44);
+        for (size_type j = 0; j < N; ++j)
+          want_s(c, "vector::object::named-accessor-write", w.get_unsafe(j), static_cast<ll>(11 * (j + 1)));
+      }
+      else
+      {
+        want_s(c, "dim::object::w(non-const)", mu.w(), pu[0]);
+        if constexpr (N >= 2)
+          want_s(c, "dim::object::h(non-const)", mu.h(), pu[1]);
+        if constexpr (N >= 3)
+          want_s(c, "dim::object::d(non-const)", mu.d(), pu[2]);
+        fm::dim::static_<T, N> w{fcppt::no_init{}};
+        for (size_type j = 0; j < N; ++j)
+          w.get_unsafe(j) = static_cast<T>(0);
+        w.w() = static_cast<T>(11);
+        if constexpr (N >= 2)
+          w.h() = static_cast<T>(22);
+        if constexpr (N >= 3)
+          w.d() = static_cast<T>(33);
+        for (size_type j = 0; j < std::min<size_type>(N, 3); ++j)
+          want_s(c, "dim::object::named-accessor-write", w.get_unsafe(j), static_cast<ll>(11 * (j + 1)));
+      }
+    }
     // negation and scalar products
     want_v(c, opn("operator-(unary)").c_str(), -u, p_vsmul(-1, pu));
     want_v(c, opn("operator*(scalar,x)").c_str(), kk * u, p_vsmul(k, pu));
